@@ -938,6 +938,16 @@ func (s *Service) runPipeline(ctx context.Context, rp *runnablePipeline) error {
 		// meantime), a blind Delete(id) would remove that OTHER run instead
 		// of just undoing this one's own publication.
 		s.deleteRunningPipelineIfCurrent(rp.pipeline.ID, rp)
+
+		// The node goroutines were already started above and, with the entry
+		// gone and the cleanup goroutine not registered yet, nothing owns them
+		// anymore. Stop them here (killing the tomb cancels the nodes' context,
+		// same as when a node fails) and wait until they tore down their
+		// connectors, otherwise they would keep running unreachable by
+		// Stop/WaitPipeline and a retried Start would find the connectors
+		// still open.
+		rp.t.Kill(err)
+		nodesWg.Wait()
 		return err
 	}
 
